@@ -477,49 +477,60 @@ def r5_aliases(ctx):
 
 
 def r2b_accumulators(ctx):
-    """in the converters, a list initialised empty before a loop and read after it is an accumulator: inside the loop
-    it must be grown (append / extend / +=), never re-assigned (which keeps only the last iteration's entries)"""
+    """in the converters, a list / dict initialised empty and then filled over several steps (the iterations of a loop, or the steps
+    of a loop over a literal tuple that the canonical model writes out) and read afterwards is an accumulator: between its
+    initialisation and its last use it must be grown (append / extend / += / item store), never re-assigned (which keeps only the
+    last step's entries)"""
     repo = ctx.repo
     util = repo.module(UTIL)
+    GROW = ('append', 'extend', 'update', 'insert', 'setdefault')
     for f in util.functions.values():
         if not (f.name.startswith('convert_') or f.name.startswith('process_') or f.name.startswith('reorder_')):
             continue
-        for lp in [n for n in ast.walk(f.node) if isinstance(n, (ast.For, ast.While))]:
-            par = getattr(lp, '_parent', None)
-            body = getattr(par, 'body', None) if par is not None else None
-            if not isinstance(body, list) or lp not in body:
-                continue
-            i = body.index(lp)
-            before, after = body[:i], body[i + 1:]
-            acc = {}
-            for s in before:
-                if isinstance(s, ast.Assign) and isinstance(s.targets[0], ast.Name) and isinstance(s.value, (ast.List, ast.Dict)) \
-                        and not (s.value.elts if isinstance(s.value, ast.List) else s.value.keys):
-                    acc[s.targets[0].id] = s
-            for nm in acc:
-                if not any(nm in names_in(s) for s in after):
+        for holder in ast.walk(f.node):
+            for fld in ('body', 'orelse'):
+                body = getattr(holder, fld, None)
+                if not isinstance(body, list) or not body or not isinstance(body[0], ast.stmt):
                     continue
-                grown = reassigned = None
-                for n in ast.walk(lp):
-                    if isinstance(n, ast.Call) and isinstance(n.func, ast.Attribute) and isinstance(n.func.value, ast.Name) \
-                            and n.func.value.id == nm and n.func.attr in ('append', 'extend', 'update', 'insert', 'setdefault'):
-                        grown = n
-                    if isinstance(n, ast.AugAssign) and isinstance(n.target, ast.Name) and n.target.id == nm:
-                        grown = n
-                    if isinstance(n, ast.Assign) and isinstance(n.targets[0], ast.Subscript) and \
-                            isinstance(n.targets[0].value, ast.Name) and n.targets[0].value.id == nm:
-                        grown = n
-                    if isinstance(n, ast.Assign) and any(isinstance(t, ast.Name) and t.id == nm for t in n.targets) and \
-                            nm not in names_in(n.value):
-                        reassigned = n
-                if reassigned is not None:
-                    ctx.bad('R2.accumulate', site(f, reassigned), f'{f.qual}|accumulator-overwritten|{nm}',
-                            f'{nm} collects entries over the iterations of a loop but is re-assigned inside it: only the '
-                            'last iteration survives (e.g. a ROADM mixing per-degree target types loses all but one)',
-                            ast.unparse(reassigned)[:160])
-                elif grown is not None:
-                    ctx.ok('R2.accumulate', site(f, lp), f'{nm} grown by {ast.unparse(grown)[:80]}')
-    ctx.need('R2.accumulate', 1, 'convert_degree.new_targets (convert_back_design_band.design_bands is a comprehension in the canonical model)')
+                for i, s0 in enumerate(body):
+                    if not (isinstance(s0, ast.Assign) and isinstance(s0.targets[0], ast.Name) and isinstance(s0.value, (ast.List, ast.Dict))
+                            and not (s0.value.elts if isinstance(s0.value, ast.List) else s0.value.keys)):
+                        continue
+                    nm = s0.targets[0].id
+                    after = body[i + 1:]
+                    last = max((k for k, s in enumerate(after) if nm in names_in(s)), default=None)
+                    if last is None:
+                        continue
+                    region = after[:last + 1]
+                    grown, reassigned, in_loop = [], None, False
+                    for s in region:
+                        for n in ast.walk(s):
+                            g = None
+                            if isinstance(n, ast.Call) and isinstance(n.func, ast.Attribute) and isinstance(n.func.value, ast.Name) \
+                                    and n.func.value.id == nm and n.func.attr in GROW:
+                                g = n
+                            if isinstance(n, ast.AugAssign) and isinstance(n.target, ast.Name) and n.target.id == nm:
+                                g = n
+                            if isinstance(n, ast.Assign) and isinstance(n.targets[0], ast.Subscript) and \
+                                    isinstance(n.targets[0].value, ast.Name) and n.targets[0].value.id == nm:
+                                g = n
+                            if g is not None:
+                                grown.append(g)
+                                in_loop = in_loop or isinstance(s, (ast.For, ast.While)) or enclosing(g, (ast.For, ast.While)) in \
+                                    [x for x in ast.walk(s) if isinstance(x, (ast.For, ast.While))]
+                            if isinstance(n, ast.Assign) and any(isinstance(t, ast.Name) and t.id == nm for t in n.targets) and \
+                                    nm not in names_in(n.value):
+                                reassigned = n
+                    if not grown or not (in_loop or len(grown) >= 2):
+                        continue
+                    if reassigned is not None:
+                        ctx.bad('R2.accumulate', site(f, reassigned), f'{f.qual}|accumulator-overwritten|{nm}',
+                                f'{nm} collects entries over several steps but is re-assigned on the way: only the '
+                                'last step survives (e.g. a ROADM mixing per-degree target types loses all but one)',
+                                ast.unparse(reassigned)[:160])
+                    else:
+                        ctx.ok('R2.accumulate', site(f, s0), f'{nm} grown by {ast.unparse(grown[0])[:80]} (+{len(grown) - 1})')
+    ctx.need('R2.accumulate', 1, 'convert_degree.new_targets')
 
 
 
